@@ -60,6 +60,19 @@ CHECKS.update({
     ),
 })
 
+CHECKS.update({
+    "C05": dict(
+        text="operation-history exploration of the real NsReader: a document family with declarations, re-declarations, un-declarations and shadowing on three nesting levels plus a following sibling (every declaration set of size <=1/<=2 on the outer elements), x expand_empty on/off x slice / buffered / async sources x EVERY consumer history (read_event / read_resolved_event / read_to_end / read_text at each Start); after every call the complete observable namespace state (six probe names as element and attribute, prefixes(), the event's own name and attribute, ResolveResult, has_nil) is compared with a scope chain computed from the document tree",
+        note="well-formed documents by construction; directly after a skip both the element's own scope and its parent's are accepted (the documentation fixes the scope only from the next event on); defect F1 found by this check was repaired (fix: commit e2f09fe)",
+        technique="exhaustive exploration of consumer call histories over a generated document family on the real NsReader against a reference scope-chain model",
+    ),
+    "C12": dict(
+        text="for every well-formed token document (<=6/7 tokens over 11 tokens incl. look-alike end tags inside comment/CDATA, blank before '>', nested same names) and every truncation of it at every byte, for EVERY start tag and each of 16 trimming/expansion configurations, the reader is advanced to the Start and read_to_end / read_text / read_to_end_into (piece 1,2,whole) / read_to_end_into_async (piece 1, whole, thorough: every single Pending placement) is called; span, read_text text, all following events+positions versus an uninterrupted run, and Config before/after are compared with the token structure; unclosed input must give Err with the configuration restored",
+        note="names a/b only; with trim_markup_names_in_closing_tags off, documents containing `</a >` are skipped",
+        technique="exhaustive enumeration of documents x start events x configurations x source schedules on the real readers against a token-structure oracle",
+    ),
+})
+
 PENDING_REASON = "check not built yet (work in progress; see DESIGN.md §9 for the order of work)"
 
 ALL = ["C%02d" % i for i in range(1, 21)]
